@@ -194,6 +194,30 @@ reg('evaluate_generative_model', _evalgen)
 reg('get_rng', lambda r: ((), {}))
 reg('pick_four_unique_nodes_quickly', lambda r: ((r.choice((4, 4, 5, 6, 9)),), {}))
 
+
+# -- nbs_parallel under the in-process pool (worker count, chunking and interleaving differ on every call) ----------
+POOL_STATE = {'n': 0, 'seed': 0, 'out_of_order': 0, 'calls': 0}
+
+
+def _nbs_parallel(x, y, thresh, k=5, tail='both', paired=False, seed=None):
+    import bct.nbs_parallel as NP
+    from sim.worlds.pool import FakeMP
+    POOL_STATE['n'] += 1
+    c = POOL_STATE['n']
+    mp = FakeMP((POOL_STATE['seed'] * 1000003 + c * 7919) & 0x7fffffff, cpu=1 + c % 5, chunksize=(None, 1, 2)[c % 3])
+    saved = NP.multiprocessing
+    NP.multiprocessing = mp
+    try:
+        return NP.nbs_bct(x, y, thresh, k=k, tail=tail, paired=paired, seed=seed, workers=(1, 2, 3, -1)[c % 4])
+    finally:
+        NP.multiprocessing = saved
+        POOL_STATE['calls'] += 1
+        if mp.out_of_order():
+            POOL_STATE['out_of_order'] += 1
+
+
+reg('nbs_parallel.nbs_bct', _nbs, fn=_nbs_parallel, note='bct.nbs_parallel.nbs_bct with multiprocessing replaced by the seeded in-process pool')
+
 EXCLUDED = {'generate_fc': 'raises NotImplementedError before any draw', 'mleme_constraint_model': 'raises NotImplementedError'}
 
 
